@@ -134,7 +134,19 @@ def check_sat(prop, tier):
         done = sum(1 for _ in open(obs)) if os.path.exists(obs) else 0
         viols.append({"rule": "crash", "index": done + 1, "rc": p.returncode})
         # validate what was recorded up to the crash
-    recs = [json.loads(l) for l in open(obs)] if os.path.exists(obs) else []
+    recs = []
+    if os.path.exists(obs):
+        good = []
+        for l in open(obs, errors="replace"):
+            try:
+                recs.append(json.loads(l))
+                good.append(l if l.endswith("\n") else l + "\n")
+            except ValueError:
+                break       # the line the harness was writing when it died
+        if p.returncode != 0:
+            with open(obs, "w") as f:
+                f.writelines(good)
+            viols[0]["index"] = len(recs) + 1
     cfg = "SPECIFICATION TSpec\nPOSTCONDITION Accepted\nCHECK_DEADLOCK FALSE\n"
     r = run_tlc(sp["trace"], cfg, sp["kind"] + "mon", d, workers=1, timeout=900, env={"TRACE": obs}, deque=True, xmx="4g")
     txt = open(r["out"], errors="replace").read()
